@@ -125,6 +125,10 @@ breaking('E4-overlap-swapped', {'C08': 'E4'}, edit=[(M + 'gate/_pauli.py', "tmp1
 breaking('E4-carry-dropped', {'C08': 'E4'}, edit=[(M + 'gate/_pauli.py', "        tmp0[0] = (tmp0[0] + tmp1 + tmp2) % 2", "        tmp0[0] = (tmp0[0] + tmp1) % 2")])
 breaking('E4-inverse-no-b1', {'C08': 'E4'}, edit=[(M + 'gate/_pauli.py', "tmp0[0] = (self.F2[0] + self.F2[1] + np.dot(self.F2[2:(2+self.num_qubit)], self.F2[(2+self.num_qubit):])) % 2", "tmp0[0] = (self.F2[0] + np.dot(self.F2[2:(2+self.num_qubit)], self.F2[(2+self.num_qubit):])) % 2")])
 preserving('E4-reordered-sum', ['C08'], edit=[(M + 'gate/_pauli.py', "        tmp0[0] = (tmp0[0] + tmp1 + tmp2) % 2", "        tmp0[0] = (tmp2 + tmp0[0] + tmp1) % 2")])
+breaking('M3-sum-over-kept', {'C11': 'M3'}, edit=[(M + 'sim/state.py', "prob = (np.abs(q1)**2).sum(axis=reduce_dim).reshape(-1)", "prob = (np.abs(q1)**2).sum(axis=keep_dim).reshape(-1)")])
+breaking('M3-not-squared', {'C11': 'M3'}, edit=[(M + 'sim/state.py', "        prob = np.abs(q1.reshape(-1))**2", "        prob = np.abs(q1.reshape(-1))")])
+breaking('M3-no-sqrt', {'C11': 'M3'}, edit=[(M + 'sim/state.py', "q2[ind2] = q1[ind2] / np.sqrt(prob[ind1])", "q2[ind2] = q1[ind2] / prob[ind1]")])
+breaking('M3-roles-swapped', {'C11': 'M3'}, edit=[(M + 'sim/state.py', "    keep_dim = tuple(x for x,y in enumerate(z0) if y[0]==1)\n    reduce_dim = tuple(x for x,y in enumerate(z0) if y[0]==0)", "    keep_dim = tuple(x for x,y in enumerate(z0) if y[0]==0)\n    reduce_dim = tuple(x for x,y in enumerate(z0) if y[0]==1)")])
 breaking('refix-get_gme_2qubit', {'C13': 'F2', 'C05': 'F2'}, patch_reverse='fix_78cd862.diff')
 
 # ---- textual breaking edits, one per rule family
